@@ -3,8 +3,8 @@ use crate::{
     base::{BaseSlot, BlockError, EntryContext, StatSlot},
     logging,
 };
-use lazy_static::lazy_static;
-use std::sync::{atomic::Ordering, Arc};
+use crate::vsync::lazy_static;
+use crate::vsync::{atomic::Ordering, Arc};
 
 const STAT_SLOT_ORDER: u32 = 4000;
 
